@@ -9,6 +9,12 @@ LEVEL_NOTE = ("Trusted base: the sim-aware models of sync/atomic/rand generated 
 CHECKS = {
  "C01": ("deterministic simulation: seeded schedule/fault search over the real proxy under a token scheduler; history oracle (one reply per request), deadlock/livelock/panic detectors",
          "Seeded exploration of goroutine-level schedules, per-attempt backend outcomes and simultaneous connection losses around the real proxy code; every run checks that each request of each connected client gets exactly one reply and reports deadlocks, livelocks and panics; failures are minimised replay files.", "§7 C01"),
+ "C02": ("deterministic simulation: seeded schedule search with scheduler-chosen backend reply order, stream reuse and stream exhaustion; token oracle per (client, stream)",
+         "Every forwarded request carries a unique token that the fake backends echo; clients reuse equal, lowest-free stream ids, backends answer in scheduler-chosen order, and one run shape keeps >2048 requests outstanding on one backend connection; every reply that carries a token must carry the token of the request sent on that stream, and no backend stream id is reused while outstanding.", "§7 C02"),
+ "C04": ("deterministic simulation: per-attempt outcome scripts and connection-loss faults; oracle over the backend execution log against generator ground truth",
+         "Requests with by-construction idempotency ground truth (CQL templates with case/whitespace variants, prepared ids known/unknown to the proxy, batches, graph payloads) meet scripted per-attempt outcomes and connection losses; the backend log must show no further attempt after an outcome that may have applied a non-idempotent request, and the client must see that error or a connection-lost error.", "§7 C04"),
+ "C05": ("deterministic simulation: scripted outcome sequences over 1-4 hosts; attempt trace and final frame checked against an executable, set-valued reference model of the documented retry policy",
+         "Sequential requests in a settled world; each request's ordered (host, outcome) trace and final client frame must be accepted by a reference model written from the policy documentation (same-host once, next-host once/always/if idempotent, rotation order, each host once, hosts+1 bound, 'no more hosts' exactly on exhaustion), with the full field space of timeout/unavailable messages swept through the wire.", "§7 C05"),
 }
 
 NOT_APPLICABLE = {
